@@ -219,7 +219,7 @@ namespace AIToolbox {
     }
 
     std::istream & read(std::istream & is, SparseTable2D & t) {
-        std::vector<Eigen::Triplet<double>> in;
+        std::vector<Eigen::Triplet<unsigned long>> in;
         size_t toRead;
         if ( !(is >> toRead) ) {
             AI_LOGGER(AI_SEVERITY_ERROR, "Could not read the number of non-zero entries for SparseTable2D");
@@ -231,7 +231,7 @@ namespace AIToolbox {
             return is;
         }
 
-        size_t r, c; double v;
+        size_t r, c; unsigned long v;
         for (size_t i = 0; i < toRead; ++i) {
             if ( !(is >> r >> c >> v) ) {
                 AI_LOGGER(AI_SEVERITY_ERROR, "Could not read SparseTable2D data, element " << i << " out of " << toRead);
